@@ -374,6 +374,8 @@ def run_evalhist(it):
         fct = f.create_function(database=db, number_of_draws=nd, gradient=True, hessian=False, bhhh=False)
     elif setup.startswith('objective'):
         fct = f.create_objective_function(database=db, number_of_draws=nd)
+    elif setup.startswith('fresh'):
+        pass           # every call prepares its own identifiers on the SAME expression objects
     else:
         raise ValueError(setup)
     from biogeme.expressions.elementary_types import TypeOfElementaryExpression
@@ -387,6 +389,15 @@ def run_evalhist(it):
         nonlocal ncall
         ncall += 1
         x = np.array([v + ncall / 1024.0 for v in x0])     # a new point each time (the objective object caches by point)
+        if setup == 'fresh-gvc':
+            return summary(f.get_value_c(database=db, number_of_draws=nd, prepare_ids=True))
+        if setup == 'fresh-gvd':
+            r = f.get_value_and_derivatives(database=db, number_of_draws=nd, prepare_ids=True, gradient=True, hessian=True,
+                                            bhhh=False, aggregation=True)
+            return summary(r.function)
+        if setup == 'fresh-biogeme':
+            from biogeme.biogeme import BIOGEME
+            return summary(BIOGEME(db, f, number_of_draws=nd).calculate_init_likelihood())
         if setup == 'prepare-gvc':
             return summary(f.get_value_c(database=db, number_of_draws=nd, prepare_ids=False))
         if setup == 'prepare-gvd':
